@@ -59,8 +59,10 @@ def run(tier):
 
 def _e_engine_requests(chk):
     """Every backend request the engine builds (the serial one and the per-worker ones) carries every detection setting of the
-    template request - offset, normal, direction, tolerances, interpolation - so that all trajectories are cut by the same
-    section whatever the worker count.  Sibling rule over the construction sites of SynodicBackendRequest."""
+    template request - offset, normal, direction, tolerances, interpolation - and every trajectory is handed over exactly once
+    with its own index, whatever the worker count.  The engine's solve() is interpreted with a model backend that records the
+    requests it receives and a simulated executor (futures completing in reverse order), for 1, 2 and 3 workers."""
+    from ..kpe import KModel, ClassRef
     ENG = "hiten.algorithms.poincare.synodic.engine"
     TYP = "hiten.algorithms.poincare.synodic.types"
     tmod, tcls = ri.find_def(TYP, "SynodicBackendRequest")
@@ -69,30 +71,60 @@ def _e_engine_requests(chk):
     settings = [f for f in fields if f not in own]
     if len(settings) < 8:
         raise AnalysisError(f"anchor: SynodicBackendRequest has only the setting fields {settings}")
-    emod = ri.need_module(ENG)
-    n = 0
-    for q, fn in ri.functions_in(emod):
-        for call in [c for c in ast.walk(fn) if isinstance(c, ast.Call) and ast.unparse(c.func).split(".")[-1] == "SynodicBackendRequest"]:
-            if ri.enclosing_function_name(call).split(".")[-1] != fn.name:
-                continue        # reported once, under the innermost function
-            n += 1
-            kws = {k.arg: k.value for k in call.keywords if k.arg}
-            src = None
-            bad = []
+    emod, ecls = ri.find_def(ENG, "_SynodicEngine")
+    trajs = [sp.Symbol(f"TRAJ{i}") for i in range(5)]
+    tmpl_vals = {f: sp.Symbol(f"SET_{f}") for f in settings}
+    for nw in (1, 2, 3):
+        seen = []
+
+        def run(request):
+            seen.append(request)
+            n = len(list(request.attrs["trajectories"]))
+            return SymObj(None, {"hits": [[] for _ in range(n)]}, "resp")
+
+        class _Fut(KModel):
+            def __init__(self, v):
+                self.v = v
+
+            def result(self):
+                return self.v
+
+        class Pool(KModel):
+            def submit(self, fn, *a):
+                return _Fut(ip.apply(fn, list(a), {}))
+
+            def __enter__(self):
+                return self
+
+            def __exit__(self, *a):
+                return False
+
+        template = SymObj(ClassRef(tmod, tcls), dict(tmpl_vals, trajectories=[], trajectory_indices=[], metadata={}), "template")
+        iface = SymObj(None, {"to_backend_inputs": lambda p_: SymObj(None, {"request": template}, "call"), "to_results": lambda resp, problem=None: resp}, "iface")
+        eng = SymObj(ClassRef(emod, ecls), {"_interface": iface, "_backend": SymObj(None, {"run": run}, "backend")}, "engine")
+        problem = SymObj(None, {"trajectories": list(trajs), "n_workers": nw}, "problem")
+        ip = Interp(overrides={"ThreadPoolExecutor": lambda ip_, a, k: Pool(), "as_completed": lambda ip_, a, k: list(reversed(a[0])),
+                               "SynodicBackendResponse": lambda ip_, a, k: SymObj(None, dict(k), "response")}, max_depth=30)
+        try:
+            ip.apply(ip.getattr(eng, "solve"), [problem], {})
+        except OutsideFragment as exc:
+            raise AnalysisError(f"_SynodicEngine.solve outside fragment ({nw} workers): {exc}")
+        chk.count("functions partially evaluated")
+        bad = []
+        handed = []
+        for r in seen:
             for f in settings:
-                v = kws.get(f)
-                if v is None:
-                    bad.append(f"{f} not passed (dataclass default used)")
-                    continue
-                if not (isinstance(v, ast.Attribute) and v.attr == f and isinstance(v.value, ast.Name)):
-                    bad.append(f"{f}={ast.unparse(v)}")
-                    continue
-                src = src or v.value.id
-                if v.value.id != src:
-                    bad.append(f"{f} taken from {v.value.id}, others from {src}")
-            chk.check(not bad, "C15.e", f"{ENG}::{q}[request #{n}]", f"a backend request does not carry the template's detection settings: {bad[:4]}",
-                      sample=f"{q}: all {len(settings)} settings copied from {src}")
-    chk.floor("backend request construction sites in the synodic engine", n, 2)
+                if r.attrs.get(f) != tmpl_vals[f]:
+                    bad.append(f"{f}={r.attrs.get(f)}")
+            tr = list(r.attrs.get("trajectories", []))
+            ix = [int(S(i)) for i in list(to_obj_array(r.attrs.get("trajectory_indices", [])))] if len(tr) else []
+            handed += list(zip(ix, tr))
+        chk.check(not bad, "C15.e", f"{ENG}::_SynodicEngine.solve[settings,{nw} worker(s)]",
+                  f"with {nw} worker(s) a backend request does not carry the template's detection settings: {sorted(set(bad))[:4]}",
+                  sample=f"{nw} worker(s): {len(seen)} request(s), all {len(settings)} settings copied from the template")
+        chk.check(sorted(handed, key=lambda t: t[0]) == list(enumerate(trajs)), "C15.e", f"{ENG}::_SynodicEngine.solve[partition,{nw} worker(s)]",
+                  f"with {nw} worker(s) the trajectories are not handed to the backend exactly once each with their own index: {handed}",
+                  sample=f"{nw} worker(s): indices {sorted(i for i, _ in handed)}")
 
 
 # ------------------------------------------------------------------------------------------- c
